@@ -315,7 +315,37 @@ public:
     std::string line = tool;
     for (auto &a : args) line += " " + a;
     sim::g_log.evs("invoke", line + " -> " + r.str());
+    dumpObservation(tool, args, input, r);
     return r;
+  }
+
+  // Second layer (thorough tier): the first observations of each worker are written out so that
+  // bin/check can repeat the same invocations with the real executables in a scratch directory and
+  // compare what it sees with what the in-process simulation saw.
+  int obsLeft = -1;
+  bool obsSuppress = false;
+  void dumpObservation(const std::string &tool, const std::vector<std::string> &args, const std::string &input, const Inv &r) {
+    if (obsLeft < 0) { const char *n = getenv("VERIF_OBS_COUNT"); obsLeft = n ? std::atoi(n) : 0; }
+    const char *path = getenv("VERIF_OBS_FILE");
+    if (obsLeft <= 0 || !path || obsSuppress) return;
+    if (r.t.kind == sim::Trapped::CRASHED) return;
+    obsLeft--;
+    Json j = Json::object();
+    j["tool"] = tool;
+    Json av = Json::array(); for (auto &a : args) av.push(a);
+    j["argv"] = av;
+    j["stdin_hex"] = sim::toHex(input);
+    j["status"] = r.status();
+    j["stdout_hex"] = sim::toHex(r.out);
+    j["stderr_nonempty"] = !r.err.empty();
+    j["consumed"] = (unsigned long long)r.consumed;
+    Json b = Json::object(), a = Json::object();
+    for (auto &kv : r.before) b[kv.first] = sim::toHex(kv.second);
+    for (auto &kv : r.after) a[kv.first] = sim::toHex(kv.second);
+    j["before"] = b; j["after"] = a;
+    std::string line = j.dump() + "\n";
+    int fd = ::open(path, O_WRONLY | O_CREAT | O_APPEND, 0644);
+    if (fd >= 0) { ssize_t w = ::write(fd, line.data(), line.size()); (void)w; ::close(fd); }
   }
 
   // Files other than `except` that existed before are unchanged.
@@ -430,8 +460,9 @@ public:
     // property's subject, and not repeatable).
     bool injected = inv.getBool("inject_open_failure") && tool != "xrun";
     if (injected) sim::fs::failOpen(effOut, 13 /*EACCES*/, true);
-
+    obsSuppress = injected;          // an injected fault has no counterpart in the real-executable layer
     Inv r = invoke(tool, args, input);
+    obsSuppress = false;
     o.nontrivial = true;
     o.simInstr = 1;
     std::string srcClass = !inputPresent ? "missing_input" : lr.accepted ? "accepted" : "rejected";
